@@ -1,6 +1,7 @@
 package props
 
 import (
+	"go/constant"
 	"go/token"
 	"regexp"
 	"strings"
@@ -474,5 +475,51 @@ func c15Validators(c *eng.Ctx) {
 		}
 		c15unreach(c, f, "on{wildcard name} acceptance needs a well-formed wildcard", eng.Query{StartEdges: wild, Blocked: okW, Target: eng.IsTarget(anyIf)}, anyIf[0].Pos(),
 			"a wildcard name reaches the allow switches only across validateWildcardDomain's success edge", "a malformed wildcard name can be accepted")
+	}
+	c15SuffixAnchored(c, f)
+}
+
+// c15SuffixAnchored: every suffix match in validateNames (localhost forms,
+// token display name, allowed domains) is anchored at a label boundary: the
+// suffix operand of strings.HasSuffix is a constant that starts with "." or a
+// concatenation whose leading operand is such a constant. A bare-suffix match
+// ("evilexample.com" against "example.com") is not a subdomain match. The rest
+// of the string semantics stays undecided.
+func c15SuffixAnchored(c *eng.Ctx, f *ssa.Function) {
+	c.Clause("R5", "C15.3")
+	n, nDomain := 0, 0
+	for _, hs := range eng.Calls(f, `^strings\.HasSuffix$`) {
+		a := hs.Common().Args
+		if len(a) != 2 {
+			continue
+		}
+		n++
+		fromDomain := false
+		for _, o := range eng.Origins(a[1]) {
+			if matches(`AllowedDomains\[|identitytpl\.PopulateString`, o.Desc) {
+				fromDomain = true
+			}
+		}
+		if fromDomain {
+			nDomain++
+		}
+		var bad []string
+		leaves := c12LeftLeaves(a[1])
+		for _, l := range leaves {
+			k, ok := l.(*ssa.Const)
+			if !ok || k.Value == nil || k.Value.Kind() != constant.String || !strings.HasPrefix(constant.StringVal(k.Value), ".") {
+				bad = append(bad, eng.Expr(l))
+			}
+		}
+		site := "suffix match anchored at a label boundary"
+		if len(bad) > 0 || len(leaves) == 0 {
+			c.Violation(f, site, hs.Pos(), "strings.HasSuffix(name, "+eng.ExprDeep(a[1])+"): the suffix does not lead with the constant \".\" (leading operand: "+strings.Join(bad, ", ")+"), so any name merely ending in the allowed string is accepted as its subdomain", nil)
+		} else {
+			c.OK(f, site, hs.Pos(), "suffix operand "+eng.Expr(a[1])+" leads with \".\"")
+		}
+	}
+	c.Floor(f, "suffix matches (strings.HasSuffix)", n, 3)
+	if nDomain == 0 {
+		c.Undecided(f, "suffix match against the allowed domains", token.NoPos, "no strings.HasSuffix whose suffix operand derives from data.role.AllowedDomains: the allow_subdomains match was restructured; the label-boundary rule cannot be evaluated (re-read)")
 	}
 }
